@@ -236,6 +236,19 @@ theorem wf_balanced (t : Tree α) (hw : t.WF) :
   | some n =>
     exact ⟨Node.balanced_of_inv hw.1, Node.searchTree_of_wf hw.1 hw.2, Node.height_eq_realHeight hw.1⟩
 
+/-- The invariant is hereditary, and at EVERY node the cached `height` and `size`
+fields are exact and Go's leaf test `height == 0` coincides with the model's
+constructor test (the representation assumption of `Model/C50Avl.lean`). -/
+theorem wf_every_node (t : Tree α) (hw : t.WF) :
+    match t.node with
+    | none => True
+    | some n => n.Forall (fun m => m.WF ∧ m.height = (m.realHeight : Int) ∧
+        m.size = (m.toList.length : Int) ∧ (m.height = 0 ↔ m.isLeaf = true)) := by
+  obtain ⟨node⟩ := t
+  cases node with
+  | none => trivial
+  | some n => exact Node.forall_of_wf hw.1 hw.2
+
 /-- `2^(height/2) ≤ size`; hence with fewer than 2^63 entries (Go's `int` size
 field cannot hold more) the height is at most 125 and the `int8` height field,
 including the `+1` in `calcHeightAndSize`, never overflows. -/
